@@ -55,7 +55,7 @@ func init() {
 func runC02(r *Run) {
 	sc := drawScen(r, scenOpts{
 		kinds: allStackKinds, strategies: []string{"simple", "precise", "lookup", "predicate"},
-		maxClients: 6, arrivals: []time.Duration{0, ms, 2 * ms, 3 * ms}, holds: []time.Duration{0, ms, 2 * ms, time.Second},
+		maxClients: scale(6, 8), arrivals: []time.Duration{0, ms, 2 * ms, 3 * ms}, holds: []time.Duration{0, ms, 2 * ms, time.Second},
 		qTimeouts: []time.Duration{ms, 2 * ms, 3 * ms, time.Second}, bTimeouts: []time.Duration{0, ms, time.Hour},
 		deadlines: []time.Duration{2 * ms, 5 * ms, time.Hour}, cancelPct: 30, cancelTimes: []time.Duration{0, ms, 2 * ms, 3 * ms},
 		backlogs: []int{1, 2, 4}, limits: []int{1, 2, 3}, relTimes: []time.Duration{0, ms, 2 * ms, 3 * ms},
@@ -116,7 +116,7 @@ func effBacklog(n int) int {
 func runC12(r *Run) {
 	sc := drawScen(r, scenOpts{
 		kinds: []string{"queue", "queue", "queue", "lifo-ctor", "fifo-ctor", "pool", "fixedpool"}, strategies: []string{"simple", "precise"},
-		maxClients: 7, arrivals: []time.Duration{0, 0, ms, 2 * ms}, holds: []time.Duration{0, ms, 2 * ms},
+		maxClients: scale(7, 9), arrivals: []time.Duration{0, 0, ms, 2 * ms}, holds: []time.Duration{0, ms, 2 * ms},
 		qTimeouts: []time.Duration{ms, 2 * ms, 3 * ms, time.Second}, bTimeouts: []time.Duration{time.Second},
 		cancelPct: 25, cancelTimes: []time.Duration{ms, 2 * ms, 3 * ms},
 		backlogs: []int{1, 2, 3, 4}, limits: []int{1, 2}, relTimes: []time.Duration{0, ms, 2 * ms, 3 * ms},
